@@ -17,6 +17,7 @@ EXPLANATION = (
     "create_from_message by the checker's own interpreter until the counter state repeats; the slot is read off the header bytes as the encoder builds "
     'them). These are necessary conditions of the history property; the interleaving/timing clauses are not decided.'
     ' Added later: R3 also demands that any entry condition of the drain other than `is_connected` (a re-entrancy flag) is released on every exit, cancellation included; R7 (C07.R9 re-used): while is_connected holds a writer is stored at every suspension point, so a popped message always finds a stream.'
+    ' Rounds 7-8: R4 also: no timer (asyncio.timeout / wait_for) around the write - only the stream reports a failed write; R5 also: every accepted message is enqueued and every entry that passes the capacity test is appended (no de-duplication or shortcut); R8 the bytes handed to the stream are owned by their frame (C05.R7 aliasing clauses re-used).'
 )
 ASSUMPTIONS = [
     "asyncio runs a task without interleaving between two awaits (cooperative scheduling)",
